@@ -679,6 +679,11 @@ pub fn body(case: &Case, out: &Shared) {
 pub fn classify_findings(res: &mut crate::exec::CaseResult) {
     let raced = res.stats.probes.get("destroy_overlapped_open").copied().unwrap_or(0) > 0;
     for f in res.findings.iter_mut() {
+        // the two structural oracles stand on their own: what they report is wrong whether or not a
+        // destroy call overlapped an open call, so they never carry the known finding's qualifier
+        if matches!(f.class.as_str(), "destroy-acted-on-open-database" | "lock-file-unlinked-by-open") {
+            continue;
+        }
         if f.concerns("C17") && !f.signature.contains("destroy-overlap") {
             f.signature.push_str(if raced { "|destroy-overlapped-open" } else { "|no-destroy-overlap" });
         }
